@@ -604,6 +604,7 @@ func (c *Ctx) ruleStr() {
 	c.ruleStrLeaf()
 	c.ruleStrJoin()
 	c.ruleStrLeadOnce()
+	c.ruleStrVerbatimSettings()
 }
 
 // ruleStrCondValid: the unguarded Condition renderer condition.string is
@@ -811,4 +812,127 @@ func (c *Ctx) flowsToReturn(fn *ssa.Function, v ssa.Value) bool {
 		return true
 	}
 	return walk(v) && reached
+}
+
+// fieldVerbatim: every value fn returns is a load of the named nodeConfig
+// field, or the result of an in-package getter for which the same holds -
+// nothing is applied to it on the way.
+func (c *Ctx) fieldVerbatim(fn *ssa.Function, field string, depth int) bool {
+	if fn == nil || depth > 4 || len(fn.Blocks) == 0 {
+		return false
+	}
+	seen := map[ssa.Value]bool{}
+	var ok func(v ssa.Value) bool
+	ok = func(v ssa.Value) bool {
+		if seen[v] {
+			return true
+		}
+		seen[v] = true
+		switch x := v.(type) {
+		case *ssa.Phi:
+			for _, e := range x.Edges {
+				if !ok(e) {
+					return false
+				}
+			}
+			return true
+		case *ssa.UnOp:
+			if x.Op != token.MUL {
+				return false
+			}
+			if fa, isF := x.X.(*ssa.FieldAddr); isF {
+				return fieldName(fa) == field
+			}
+			// a spilled named result
+			if al, isA := x.X.(*ssa.Alloc); isA {
+				n := 0
+				good := true
+				for _, r := range *al.Referrers() {
+					if st, isS := r.(*ssa.Store); isS && st.Addr == ssa.Value(al) {
+						n++
+						if !ok(st.Val) {
+							good = false
+						}
+					}
+				}
+				return n > 0 && good
+			}
+			return false
+		case *ssa.Field:
+			return false
+		case *ssa.Call:
+			cal := c.p.callee(&x.Call)
+			return cal != nil && c.p.inPkg(cal) && c.fieldVerbatim(cal, field, depth+1)
+		}
+		return false
+	}
+	n := 0
+	for _, b := range fn.Blocks {
+		for _, in := range b.Instrs {
+			if ret, isR := in.(*ssa.Return); isR {
+				if len(ret.Results) != 1 {
+					return false
+				}
+				n++
+				if !ok(ret.Results[0]) {
+					return false
+				}
+			}
+		}
+	}
+	return n > 0
+}
+
+// ruleStrVerbatimSettings: the symbol and the LIST delimiter reach the
+// rendering exactly as stored - the getters the rendering code calls return
+// the configuration field itself - and stack.typ hands the symbol on untouched
+// (case folding applies to operator words only).
+func (c *Ctx) ruleStrVerbatimSettings() {
+	rep := c.rep
+	for _, g := range []struct{ fn, field, what string }{
+		{"(*stack).getListDelimiter", "nodeConfig.ljc", "the LIST delimiter"},
+		{"stack.getSymbol", "nodeConfig.sym", "the symbol"},
+	} {
+		fn := c.anchor("R-STR", g.fn)
+		if fn == nil {
+			continue
+		}
+		if c.fieldVerbatim(fn, g.field, 0) {
+			rep.ok("R-STR", g.fn, "VERBATIM: "+g.what, c.p.pos(fn.Pos()), "returns the stored "+g.field+" itself, nothing applied to it")
+		} else {
+			rep.bad("R-STR", g.fn, "VERBATIM: "+g.what, c.p.pos(fn.Pos()), g.what+" is not handed to the rendering code exactly as stored (something is applied to "+g.field+" on the way)")
+		}
+	}
+	// typ(): with a symbol set, result 0 is that symbol
+	fn := c.anchor("R-STR", "stack.typ")
+	if fn == nil {
+		return
+	}
+	fa := c.eng.analyze(fn, nil)
+	syms := c.findCalls(fn, "stack.getSymbol", "(*stack).getSymbol")
+	var problems []string
+	nSym := 0
+	for _, rs := range fa.rets {
+		if rs.st.dead || len(rs.ret.Results) < 1 {
+			continue
+		}
+		for _, sc := range syms {
+			st := fa.term(rs.st, sc)
+			if v, k := c.strEmptiness(fa, rs.st, st); k && v {
+				nSym++
+				if fa.term(rs.st, rs.ret.Results[0]) != st {
+					problems = append(problems, "with a symbol set the operator text returned is not the symbol itself: "+fa.term(rs.st, rs.ret.Results[0]).key)
+				}
+			}
+		}
+	}
+	if nSym == 0 {
+		problems = append(problems, "no return path on which a symbol is known to be set")
+	}
+	if len(problems) == 0 {
+		rep.ok("R-STR", "stack.typ", "VERBATIM: symbol as operator", c.p.pos(fn.Pos()), "with a symbol set the operator text is exactly getSymbol()'s result (no folding, no padding)")
+	} else {
+		sort.Strings(problems)
+		rep.bad("R-STR", "stack.typ", "VERBATIM: symbol as operator", c.p.pos(fn.Pos()), strings.Join(uniq(problems), "; "))
+	}
 }
